@@ -299,6 +299,188 @@ pub fn replay_case(out: &mut Out, id: u64, lines: &[String]) {
 	run_case(out, id, &case);
 }
 
+/// C07: one long run of a scalar method; at the sampled late positions a *local* case is written:
+/// the last `back` inputs and the output the long-running instance produced (a fresh model instance
+/// primed with them must reproduce it), or — `with_state` — the serialized state before and after
+/// the step (one exact model step from the implementation's own state: L-step).
+fn long_drive<M, F>(out: &mut Out, id: &mut u64, name: &str, params: &[String], ctor: F, xs_gen: &mut dyn FnMut(usize) -> f64, total: usize, positions: &[usize], back: usize, with_state: bool)
+where
+	M: Method<Input = V> + Serialize,
+	M::Output: OutTok,
+	F: FnOnce(&V) -> Result<M, Error>,
+{
+	let x0 = xs_gen(0) as V;
+	let mut m = match guard(|| ctor(&x0)) {
+		Some(Ok(m)) => m,
+		_ => return,
+	};
+	let mut ring: std::collections::VecDeque<V> = std::collections::VecDeque::with_capacity(back + 2);
+	let mut mag: f64 = (x0 as f64).abs();
+	let mut pi = 0;
+	let mut prev_state = String::new();
+	for t in 0..total {
+		let x = xs_gen(t) as V;
+		mag = mag.max((x as f64).abs());
+		if ring.len() == back + 1 {
+			ring.pop_front();
+		}
+		ring.push_back(x);
+		let sample = pi < positions.len() && positions[pi] == t;
+		if with_state && sample {
+			// the state the sampled step starts from
+			prev_state = flat_string(&m);
+		}
+		let o = match guard(|| m.next(&x)) {
+			Some(o) => o,
+			None => {
+				out.line(&format!("C {} method {} {} t0={} M=f{}", *id, name, params.join(" "), t, fbits(mag)));
+				out.line(&format!("X {} ; P ;", vtok(x)));
+				out.line("E");
+				*id += 1;
+				return;
+			}
+		};
+		if sample {
+			pi += 1;
+			if with_state {
+				out.line(&format!("C {} method {} {} t0={} M=f{}", *id, name, params.join(" "), t, fbits(mag)));
+				out.line(&format!("S {}", prev_state));
+				out.line(&format!("X {} ; {} ; {}", vtok(x), o.toks(), flat_string(&m)));
+				prev_state = String::new();
+			} else if ring.len() == back + 1 {
+				let t0 = t + 1 - back;
+				out.line(&format!("C {} method {} {} t0={} M=f{}", *id, name, params.join(" "), t0, fbits(mag)));
+				out.line(&format!("N {} ; ok ;", vtok(ring[0])));
+				for (j, y) in ring.iter().enumerate().skip(1) {
+					if j == back {
+						out.line(&format!("X {} ; {} ;", vtok(*y), o.toks()));
+					} else {
+						out.line(&format!("X {} ; ? ;", vtok(*y)));
+					}
+				}
+			} else {
+				continue;
+			}
+			out.line("E");
+			out.count("late_positions");
+			*id += 1;
+		}
+	}
+	out.add("long_steps", total as u64);
+}
+
+pub fn long_suite(out: &mut Out, seed: u64, thorough: bool) {
+	let mut rng = Rng::new(seed);
+	let total: usize = if thorough { 2_000_000 } else { 12_000 };
+	let mut id = 0u64;
+	// late positions: dense around multiples of 255 / 256 / 65535 / 65536, the end, and random ones
+	let positions = |rng: &mut Rng, total: usize| -> Vec<usize> {
+		let mut v: Vec<usize> = Vec::new();
+		for base in [255usize, 256, 510, 512, 65535, 65536, 131070, total / 2, total - 1] {
+			for d in [-2i64, -1, 0, 1, 2, 3] {
+				let p = base as i64 + d;
+				if p > 0 && (p as usize) < total {
+					v.push(p as usize);
+				}
+			}
+		}
+		for _ in 0..(if total > 100_000 { 40 } else { 20 }) {
+			v.push(300 + rng.below(total as u64 - 300) as usize);
+		}
+		v.sort();
+		v.dedup();
+		v
+	};
+	let lens: Vec<u64> = if thorough { vec![1, 2, 3, 5, 14, 50, 127, 254] } else { vec![2, 5, 14, 100] };
+	for name in SCALAR_METHODS.iter().chain(["upper_rev", "lower_rev", "reversal", "tsi"].iter()) {
+		for &len in &lens {
+			if len >= gen_max() {
+				continue;
+			}
+			let mut r = rng.fork(id + 17);
+			let ps = positions(&mut r, total);
+			// regimes: volatile -> exactly flat -> volatile -> scale jump -> walk, repeated; positive for roc
+			let mut x = 100.0f64;
+			let mut rr = r.fork(3);
+			let seg = total / 7 + 1;
+			let positive = *name == "roc";
+			let mut gen_x = move |t: usize| -> f64 {
+				match (t / seg) % 7 {
+					0 | 2 | 6 => x += rr.gauss(),
+					1 => {}
+					3 => x = 1e6 * (1.0 + 0.01 * rr.gauss()),
+					4 => x = 1e-3 * (1.0 + 0.01 * rr.gauss()),
+					_ => x = 100.0 + (rr.below(5) as f64),
+				}
+				if positive && x < 1.0 {
+					x = 1.0 + rr.unit();
+				}
+				x
+			};
+			let recursive = ["ema", "dma", "tma", "dema", "tema", "rma", "wsma", "tsi", "vidya"].contains(name);
+			let p1 = (len % 9 + 1).to_string();
+			let (params, back): (Vec<String>, usize) = match *name {
+				"upper_rev" | "lower_rev" | "reversal" => {
+					let (l, rgt) = (len.min(100), (len % 9 + 1).min(100));
+					if l + rgt + 2 >= gen_max() {
+						continue;
+					}
+					(vec![l.to_string(), rgt.to_string()], 3 * (l + rgt + 1) as usize + 2)
+				}
+				"tsi" => (vec![p1.clone(), len.to_string()], 1),
+				"hma" | "trima" | "swma" => (vec![len.to_string()], 3 * len as usize + 4),
+				_ => (vec![len.to_string()], len as usize + 1),
+			};
+			let l = pt(&params[0]);
+			let l2 = || pt(&params[1]);
+			macro_rules! go {
+				($t:ty, $ctor:expr) => {
+					long_drive::<$t, _>(out, &mut id, name, &params, $ctor, &mut gen_x, total, &ps, back, recursive)
+				};
+			}
+			match *name {
+				"sma" => go!(SMA, |v| SMA::new(l, v)),
+				"wma" => go!(WMA, |v| WMA::new(l, v)),
+				"ema" => go!(EMA, |v| EMA::new(l, v)),
+				"dma" => go!(DMA, |v| DMA::new(l, v)),
+				"tma" => go!(TMA, |v| TMA::new(l, v)),
+				"dema" => go!(DEMA, |v| DEMA::new(l, v)),
+				"tema" => go!(TEMA, |v| TEMA::new(l, v)),
+				"rma" => go!(RMA, |v| RMA::new(l, v)),
+				"wsma" => go!(WSMA, |v| WSMA::new(l, v)),
+				"swma" => go!(SWMA, |v| SWMA::new(l, v)),
+				"trima" => go!(TRIMA, |v| TRIMA::new(l, v)),
+				"hma" => go!(HMA, |v| HMA::new(l, v)),
+				"linreg" => go!(LinReg, |v| LinReg::new(l, v)),
+				"vidya" => go!(Vidya, |v| Vidya::new(l, v)),
+				"integral" => go!(Integral, |v| Integral::new(l, v)),
+				"derivative" => go!(Derivative, |v| Derivative::new(l, v)),
+				"momentum" => go!(Momentum, |v| Momentum::new(l, v)),
+				"roc" => go!(RateOfChange, |v| RateOfChange::new(l, v)),
+				"past" => go!(Past<V>, |v| Past::new(l, v)),
+				"stdev" => go!(StDev, |v| StDev::new(l, v)),
+				"mad" => go!(MeanAbsDev, |v| MeanAbsDev::new(l, v)),
+				"medad" => go!(MedianAbsDev, |v| MedianAbsDev::new(l, v)),
+				"cci" => go!(CCI, |v| CCI::new(l, v)),
+				"linvol" => go!(LinearVolatility, |v| LinearVolatility::new(l, v)),
+				"highest" => go!(Highest, |v| Highest::new(l, v)),
+				"lowest" => go!(Lowest, |v| Lowest::new(l, v)),
+				"hldelta" => go!(HighestLowestDelta, |v| HighestLowestDelta::new(l, v)),
+				"hindex" => go!(HighestIndex, |v| HighestIndex::new(l, v)),
+				"lindex" => go!(LowestIndex, |v| LowestIndex::new(l, v)),
+				"smm" => go!(SMM, |v| SMM::new(l, v)),
+				"tsi" => go!(TSI, |v| TSI::new(l, l2(), v)),
+				"upper_rev" => go!(UpperReversalSignal, |v| UpperReversalSignal::new(l, l2(), v)),
+				"lower_rev" => go!(LowerReversalSignal, |v| LowerReversalSignal::new(l, l2(), v)),
+				"reversal" => go!(ReversalSignal, |v| ReversalSignal::new(l, l2(), v)),
+				_ => {}
+			}
+		}
+	}
+	out.add("cases", id);
+	out.sample(format!("{} steps per instance; regimes volatile/flat/volatile/1e6/1e-3/plateau/volatile; local cases at positions around 255,256,510,512,65535,65536, the middle, the end and 20-40 random late positions", total));
+}
+
 /// C10: every value of PeriodType for every length parameter (all pairs for two-parameter methods in
 /// the thorough tier, a boundary-dense subset otherwise); accepted instances are then driven
 pub fn ctor_suite(out: &mut Out, seed: u64, thorough: bool) {
